@@ -1003,9 +1003,10 @@ func resultAccessors(w *World, r *Report, rule string) {
 			}
 			return ""
 		}
-		// the decision table: (value result, error result) per exit
+		// the decision table: (value result, error result) per exit; exits of one kind are joined
 		r0, r1 := sym.retTable(f, 0), sym.retTable(f, 1)
 		why := ""
+		conds := map[string]*pcF{"run error": pcZ, "conversion": pcZ, "missing value": pcZ}
 		seen := map[string]bool{}
 		if len(r0) != len(r1) {
 			why = "results not decided"
@@ -1014,23 +1015,32 @@ func resultAccessors(w *World, r *Report, rule string) {
 			if why != "" {
 				break
 			}
-			var want func(env map[string]bool) bool
 			kind := ""
 			switch {
 			case loadOf(r1[i].val, runErr):
-				kind, want = "run error", func(env map[string]bool) bool { return !env["errnil"] }
+				kind = "run error"
 			case isNilConst(r1[i].val):
-				kind, want = "conversion", func(env map[string]bool) bool { return env["errnil"] && !env["valnil"] }
+				kind = "conversion"
 				call, ok := r0[i].val.(*ssa.Call)
 				if !ok || !call.Call.IsInvoke() || call.Call.Method.Name() != c.conv || !loadOf(call.Call.Value, value) {
 					why = "the successful exit does not return value." + c.conv + "()"
 				}
 			default:
-				kind, want = "missing value", func(env map[string]bool) bool { return env["errnil"] && env["valnil"] }
+				kind = "missing value"
 			}
 			seen[kind] = true
-			if msg := pcCompare(r1[i].cond, classify, want); msg != "" && why == "" {
-				why = "the " + kind + " exit is taken under the wrong condition: " + msg
+			conds[kind] = pcOrF(conds[kind], r1[i].cond)
+		}
+		wants := map[string]func(env map[string]bool) bool{
+			"run error":     func(env map[string]bool) bool { return !env["errnil"] },
+			"conversion":    func(env map[string]bool) bool { return env["errnil"] && !env["valnil"] },
+			"missing value": func(env map[string]bool) bool { return env["errnil"] && env["valnil"] },
+		}
+		for _, kind := range []string{"run error", "conversion", "missing value"} {
+			if why == "" && seen[kind] {
+				if msg := pcCompare(conds[kind], classify, wants[kind]); msg != "" {
+					why = "the " + kind + " exit is taken under the wrong condition: " + msg
+				}
 			}
 		}
 		if why == "" && !(seen["run error"] && seen["conversion"] && seen["missing value"]) {
@@ -1114,6 +1124,7 @@ func c01Dispatch(w *World, r *Report) {
 			},
 		}
 		seen := map[string]bool{}
+		condOf := map[string]*pcF{}
 		order, args, deleg := "", "", ""
 		for _, b := range f.Blocks {
 			for _, in := range b.Instrs {
@@ -1150,9 +1161,19 @@ func c01Dispatch(w *World, r *Report) {
 				if a0 != left || a1 != right {
 					args = "the " + which + " comparison receives its operands in the wrong order"
 				}
-				if msg := pcCompare(sym.PathCond(f.Blocks[0], b, nil), classify, wantOf[which]); msg != "" {
-					order = "the " + which + " comparison is selected under the wrong condition: " + msg
+				// several calls of one kind (a test written in two halves) are joined
+				if condOf[which] == nil {
+					condOf[which] = pcZ
 				}
+				condOf[which] = pcOrF(condOf[which], sym.PathCond(f.Blocks[0], b, nil))
+			}
+		}
+		for _, which := range []string{"nodeset", "bool", "num", "lit"} {
+			if condOf[which] == nil {
+				continue
+			}
+			if msg := pcCompare(condOf[which], classify, wantOf[which]); msg != "" && order == "" {
+				order = "the " + which + " comparison is selected under the wrong condition: " + msg
 			}
 		}
 		wantKinds := []string{"nodeset", "num"}
